@@ -9,6 +9,7 @@ CONSTANTS
   Boxes = {}
   KConv = 1000000
   KConvX = 1000
+  KGap = 1000000000
 INVARIANTS TypeOK Protocol Descent ReportConsistent Budget FeasibleAlways Bracketed Converged MetaSchedule
 POSTCONDITION TraceAccepted
 CHECK_DEADLOCK FALSE
